@@ -262,4 +262,77 @@ theorem checkRhs_progress {α} (N : Num α) (m : Model) (L : Layout) (inp : Inpu
   simp only [initBoundRhs, timeNames, List.mem_cons, List.not_mem_nil, or_false] at hx
   rcases hx with rfl | rfl <;> simp [initRhs, lookup]
 
+
+/-- Initial machine state of a scheme function: the time symbol and `dt` are bound. -/
+def initScheme {α} (t dt : α) : St α := ⟨[("dt", dt), ("t", t), ("time", t)], []⟩
+
+/-- **Schemes (C05–C07, C12).** A program that passes `checkScheme` writes every state slot
+exactly once, and the value found there is the value of the stored expression at any
+environment `ρ` that satisfies the program's defines as equations, binds the unpacked names
+to the inputs and agrees on `t`, `time`, `dt`. -/
+theorem checkScheme_sound {α} (N : Num α) (m : Model) (L : Layout) (inp : Inputs α) (t dt : α)
+    (ρ : Env α) (p : List Stmt) (s' : St α)
+    (hchk : checkScheme m L p = true)
+    (hsol : Solution N m L inp t ρ) (hdt : ρ "dt" = some dt)
+    (hD : ∀ d ∈ defines p, ρ d.1 = eval N ρ d.2)
+    (hx : exec N inp (initScheme t dt) p = some s') :
+    ∀ i, i < L.state.length →
+      ∃ e, (i, e) ∈ stores p ∧ (eval N ρ e).isSome ∧ s'.result i = eval N ρ e := by
+  simp only [checkScheme, Bool.and_eq_true] at hchk
+  obtain ⟨⟨⟨hw, hu⟩, _⟩, hs⟩ := hchk
+  have h0 : ∀ x ∈ initBoundScheme, lookup (initScheme t dt).env x = ρ x := by
+    intro x hx'
+    simp only [initBoundScheme, timeNames, List.mem_cons, List.not_mem_nil, or_false] at hx'
+    rcases hx' with rfl | rfl | rfl
+    · simp [initScheme, hdt]
+    · have := hsol.2.2.2.1 "t" (by simp [timeNames]); simp [initScheme, lookup, this]
+    · have := hsol.2.2.2.1 "time" (by simp [timeNames]); simp [initScheme, lookup, this]
+  obtain ⟨_, h2, h3, _⟩ := exec_agree N inp ρ p initBoundScheme (initScheme t dt) s'
+    (unpacks_ok N m L inp t ρ p hsol hu) hD h0 hw hx
+  intro i hi
+  exact result_of_slotsExact N ρ p s' _ hs
+    (fun i v hv => by
+      rcases h2 i v hv with hh | hh
+      · simp [initScheme] at hh
+      · exact hh) h3 i hi
+
+/-- A strengthening of `checkRhs_sound` that names the derivative: the value in slot `i` is
+the value of the variable the program itself stores there, and that variable is a
+derivative of the state the layout puts in slot `i`. -/
+theorem checkRhs_sound_named {α} (N : Num α) (m : Model) (L : Layout) (inp : Inputs α) (t : α)
+    (ρ : Env α) (p : List Stmt) (s' : St α)
+    (hchk : checkRhs m L p = true) (hsol : Solution N m L inp t ρ) (hok : ExprOK N m ρ p)
+    (hx : exec N inp (initRhs t) p = some s') :
+    ∀ i X, L.state[i]? = some X →
+      ∃ d, (i, Expr.var d) ∈ stores p ∧ m.stateOfDeriv d = some X ∧ s'.result i = ρ d := by
+  simp only [checkRhs, Bool.and_eq_true] at hchk
+  obtain ⟨⟨⟨⟨hw, hu⟩, hd⟩, hs⟩, hst⟩ := hchk
+  obtain ⟨_, h2, h3, _⟩ := exec_agree N inp ρ p initBoundRhs (initRhs t) s'
+    (unpacks_ok N m L inp t ρ p hsol hu) (defines_ok N m L inp t ρ p hsol hd hok)
+    (initRhs_agree N m L inp t ρ hsol) hw hx
+  intro i X hiX
+  have hi : i < L.state.length := by
+    rcases Nat.lt_or_ge i L.state.length with h | h
+    · exact h
+    · rw [List.getElem?_eq_none h] at hiX; cases hiX
+  obtain ⟨e, he, _, hres⟩ := result_of_slotsExact N ρ p s' _ hs
+    (fun i v hv => by
+      rcases h2 i v hv with hh | hh
+      · simp [initRhs] at hh
+      · exact hh) h3 i hi
+  simp only [List.all_eq_true] at hst
+  have := hst (i, e) he
+  cases e with
+  | var d =>
+    simp only at this
+    cases hsd : m.stateOfDeriv d with
+    | none => simp [hsd] at this
+    | some Y =>
+      simp only [hsd, beq_iff_eq] at this
+      rw [hiX] at this
+      have hXY : X = Y := Option.some.inj this
+      subst hXY
+      exact ⟨d, he, hsd, by simpa [eval] using hres⟩
+  | _ => simp at this
+
 end Gx
